@@ -1489,12 +1489,17 @@ func (sab *storageAllocationBase) changeBlobbers(
 		return nil, actErr
 	}
 
+	// the new blobber allocation gets the size every other blobber of this
+	// allocation already has (after extensions that is not ceil(Size/DataShards))
+	afterSize := sab.bSize()
+	if len(sab.BlobberAllocs) > 0 {
+		afterSize = sab.BlobberAllocs[0].Size
+	}
 	//nolint:errcheck
 	addedBlobber.mustUpdateBase(func(b *storageNodeBase) error {
-		b.Allocated += sab.bSize() // Why increase allocation then check if the free capacity is enough?
+		b.Allocated += afterSize
 		return nil
 	})
-	afterSize := sab.bSize()
 
 	ba := newBlobberAllocation(afterSize, sab, addedBlobber.mustBase(), conf, now)
 
